@@ -627,6 +627,34 @@ class Canon:
 
     def inline_exprs(self, body, owner):
         """Statement-free callee bodies replace the call expression wherever it stands."""
+        # `helper(..)?` with a statement-free private helper `Ok(E)` whose own `?` carry the caller's error type: the value is E
+        for n in list(_walk(body)):
+            if n.get("k") != "Try" or not isinstance(n.get("e"), dict):
+                continue
+            inner = _strip(n["e"])
+            c = _callee(inner)
+            f = self.inlinable(c, allow_try=True) if c else None
+            if f is None or f["body"].get("stmts") or f["body"].get("expr") is None:
+                continue
+            if self._err_type(f.get("output")) is None or self._err_type(f.get("output")) != self._err_type(owner.get("output")):
+                continue
+            t0 = _strip(f["body"]["expr"])
+            if not (t0.get("k") == "Call" and str(t0.get("f", {}).get("fn", "")).endswith("::Ok") and len(t0.get("args", [])) == 1):
+                continue
+            inst = self._instance(f, inner)
+            if inst is None or inst[0] or inst[1]:
+                continue
+            tl = _strip(inst[2])
+            if not (tl.get("k") == "Call" and str(tl.get("f", {}).get("fn", "")).endswith("::Ok")):
+                continue
+            val = tl["args"][0]
+            keep = {kk: n.get(kk) for kk in ("adj",)}
+            n.clear()
+            n.update(val)
+            for kk, vv in keep.items():
+                if vv and not n.get(kk):
+                    n[kk] = vv
+            self.stats["inlined_try_exprs"] = self.stats.get("inlined_try_exprs", 0) + 1
         for n in list(_walk(body)):
             c = _callee(n)
             if not c:
